@@ -484,6 +484,93 @@ fn e2e_case(r: &mut Rng, allow_empty_frames: bool, res: &mut CaseResult) {
 /// A headers table with a long-string value that is not UTF-8 (AMQP: "long strings can
 /// contain any data"; brokers relay them unchanged), followed by more entries. The message
 /// has to arrive with all of them - or not pretend to have arrived intact.
+/// Headers {a: short int ('s' + 2 bytes, RabbitMQ's encoding), b: long string of plain ASCII
+/// and NUL bytes}: nesting depth 1. The text is arranged so that a reader that mistook the
+/// short int for a short string would see 40 arrays inside each other in it.
+fn short_int_header_case(res: &mut CaseResult) {
+    use amq_protocol::protocol::basic::AMQPMethod as B;
+    use amq_protocol::protocol::{basic, AMQPClass};
+    let (conn, h) = session::open_default(Reflex::default());
+    let mut conn = match conn {
+        Ok(c) => c,
+        Err(e) => {
+            res.inconclusive(format!("handshake: {}", ek(&e)));
+            return;
+        }
+    };
+    let ch = match conn.open_channel(None) {
+        Ok(c) => c,
+        Err(e) => {
+            res.inconclusive(format!("open_channel: {}", ek(&e)));
+            return;
+        }
+    };
+    let consumer = match ch.basic_consume("q", ConsumerOptions::default()) {
+        Ok(c) => c,
+        Err(e) => {
+            res.inconclusive(format!("consume: {}", ek(&e)));
+            return;
+        }
+    };
+    let (rx, tag) = (consumer.receiver().clone(), consumer.consumer_tag().to_string());
+    let id = ch.channel_id();
+    let mut text = vec![b' '; 0x4100];
+    text[0] = 0x00;
+    text[1] = 0x3E;
+    text[2] = 0x00;
+    for i in 0..40usize {
+        let at = 3 + 5 * i;
+        text[at] = b'A';
+        text[at + 1] = 0;
+        text[at + 2] = 0;
+        text[at + 3] = 0x30 - i as u8;
+        text[at + 4] = 0;
+    }
+    let mut table: Vec<u8> = vec![1, b'a', b's', 0, 5, 1, b'b', b'S'];
+    table.extend_from_slice(&(text.len() as u32).to_be_bytes());
+    table.extend_from_slice(&text);
+    let body = b"payload".to_vec();
+    let mut hp: Vec<u8> = Vec::new();
+    hp.extend_from_slice(&60u16.to_be_bytes());
+    hp.extend_from_slice(&0u16.to_be_bytes());
+    hp.extend_from_slice(&(body.len() as u64).to_be_bytes());
+    hp.extend_from_slice(&0x2000u16.to_be_bytes());
+    hp.extend_from_slice(&(table.len() as u32).to_be_bytes());
+    hp.extend_from_slice(&table);
+    let mut bytes = wire::enc_method(id, AMQPClass::Basic(B::Deliver(basic::Deliver { consumer_tag: tag, delivery_tag: 1, redelivered: false, exchange: "x".into(), routing_key: "k".into() })));
+    bytes.extend(wire::enc_raw(wire::T_HEADER, id, &hp));
+    bytes.extend(wire::enc_body(id, &body));
+    h.inject(bytes);
+    match rx.recv_timeout(W) {
+        Ok(ConsumerMessage::Delivery(d)) => {
+            res.obs("deliveries_checked", 1);
+            let hdrs = d.properties.headers().clone().unwrap_or_default();
+            let b_ok = matches!(hdrs.get("b"), Some(amiquip::AmqpValue::LongString(t)) if t.as_bytes() == &text[..]);
+            let a_ok = matches!(hdrs.get("a"), Some(amiquip::AmqpValue::ShortInt(5)));
+            if d.body != body || hdrs.len() != 2 || !a_ok || !b_ok {
+                res.violate("delivery_content_differs", format!("headers {{a: short int 5, b: {} bytes of text}} arrived as {} entries (a ok: {}, b ok: {})", text.len(), hdrs.len(), a_ok, b_ok));
+            }
+        }
+        other => {
+            let t = run::spawn("close", move || conn.close());
+            let why = match t.join(W) {
+                J::Done(r) => session::rk(&r),
+                _ => "close hangs".to_string(),
+            };
+            res.violate("delivery_lost", format!("a message with headers {{a: short int 5, b: plain text}} (nesting depth 1) was not delivered ({:?}); Connection::close() = {}", other.map(|_| "another message"), why));
+            let _ = run::take_panics();
+            return;
+        }
+    }
+    std::mem::forget(consumer);
+    drop(ch);
+    let t = run::spawn("close", move || conn.close());
+    let _ = t.join(W);
+    let _ = run::take_panics();
+    res.sig = crate::rng::fnv_str("shortinthdr");
+    res.sample = Some(json!({"scenario": "short-int header followed by a text header that resembles nesting when misread"}));
+}
+
 fn binary_header_case(variant: u64, res: &mut CaseResult) {
     use amq_protocol::protocol::basic::AMQPMethod as B;
     use amq_protocol::protocol::{basic, AMQPClass};
@@ -743,6 +830,13 @@ fn compositions(n: usize, f: &mut dyn FnMut(&[usize])) {
 pub fn run(rc: &mut RunCtx) {
     let seed = rc.seed;
     if !rc.miri() {
+        let id = "short-int-header".to_string();
+        if rc.mine(&id) {
+            rc.begin(&id);
+            let mut res = CaseResult::new(id);
+            short_int_header_case(&mut res);
+            rc.end(res);
+        }
         for v in 0..2u64 {
             let id = format!("binary-header:{}", v);
             if !rc.mine(&id) {
